@@ -397,4 +397,84 @@ theorem confDims_pad (k : Nat) (s : List Nat) (a : List Natural) (h : confDims s
   | zero => simpa using h
   | succ k ih => simp [List.replicate_succ, confDims, conf, ih]
 
+/-! ### the simple format -/
+
+theorem dim_simple_roundtrip (d : Natural) : Natural.fromSimple (Natural.toSimple d) = d := by
+  cases d with
+  | const n => rfl
+  | unk l =>
+    by_cases h : l = ""
+    · simp [Natural.toSimple, Natural.fromSimple, h]
+    · simp [Natural.toSimple, Natural.fromSimple, h]
+
+theorem dims_simple_roundtrip (l : List Natural) :
+    (l.map Natural.toSimple).map Natural.fromSimple = l := by
+  induction l with
+  | nil => rfl
+  | cons d ds ih => simp [dim_simple_roundtrip, ih]
+
+theorem shape_simple_roundtrip (s : Shape) : Shape.fromSimple (Shape.toSimple s) = s := by
+  cases s with
+  | none => rfl
+  | some l => simp only [Shape.fromSimple, Shape.toSimple, Option.map_some, dims_simple_roundtrip]
+
+/-! ### both operand orders -/
+
+theorem bElem_comm (x y : Natural) : bElem x y = bElem y x := by
+  cases x <;> cases y <;> grind [bElem]
+
+theorem bZip_comm : (a b : List Natural) → bZip a b = bZip b a
+  | [], [] => rfl
+  | [], _ :: _ => rfl
+  | _ :: _, [] => rfl
+  | x :: xs, y :: ys => by
+    simp only [bZip, bElem_comm x y, bZip_comm xs ys]
+
+theorem broadcast_comm (a b : Shape) : broadcast a b = broadcast b a := by
+  cases a with
+  | none => cases b <;> rfl
+  | some xa =>
+    cases b with
+    | none => rfl
+    | some xb =>
+      simp only [broadcast]
+      by_cases h1 : xa.length > xb.length
+      · have h2 : ¬ xb.length > xa.length := by omega
+        simp [h1, h2]
+      · by_cases h2 : xb.length > xa.length
+        · simp [h1, h2]
+        · have he : xa.length = xb.length := by omega
+          simp [he, bZip_comm xa xb]
+
+/-! ### rank of the result -/
+
+theorem bZip_length : (a b c : List Natural) → bZip a b = some c → c.length = min a.length b.length
+  | [], _, c, h => by simp [bZip] at h; subst h; simp
+  | _ :: _, [], c, h => by simp [bZip] at h; subst h; simp
+  | x :: xs, y :: ys, c, h => by
+    simp only [bZip] at h
+    cases hxy : bElem x y with
+    | none => simp [hxy] at h
+    | some z =>
+      simp only [hxy, Option.map_eq_some_iff] at h
+      obtain ⟨zs, hzs, rfl⟩ := h
+      have := bZip_length xs ys zs hzs
+      simp only [List.length_cons, this]
+      omega
+
+theorem broadcast_rank (a b c : List Natural) (h : broadcast (some a) (some b) = some (some c)) :
+    c.length = max a.length b.length := by
+  simp only [broadcast] at h
+  by_cases hgt : a.length > b.length
+  · simp only [hgt, if_true, Option.map_eq_some_iff, Option.some.injEq] at h
+    obtain ⟨zc, hz, rfl⟩ := h
+    have := bZip_length _ _ _ hz
+    simp only [List.length_append, List.length_replicate] at this
+    omega
+  · simp only [hgt, if_false, Option.map_eq_some_iff, Option.some.injEq] at h
+    obtain ⟨zc, hz, rfl⟩ := h
+    have := bZip_length _ _ _ hz
+    simp only [List.length_append, List.length_replicate] at this
+    omega
+
 end Types
